@@ -54,6 +54,10 @@ CATALOGUE = [
     ('c12-default-path-parent', 'C12', BUILD, "DEFAULT_LUA_PATH = '?;?.lua'", "DEFAULT_LUA_PATH = '?;?.lua;../?.lua'", 'red'),
     ('c12-cart-path-added', 'C12', P8, "    '~/.lexaloffle/pico-8/carts',  # Linux\n",
      "    '~/.lexaloffle/pico-8/carts',  # Linux\n    '~/.lexaloffle',\n", 'red'),
+    ('c12-substitute-before-split', 'C12', BUILD,
+     "    for lookup_p in lua_path.split(';'):\n        candidate = lookup_p.replace('?', p)\n",
+     "    for candidate in lua_path.replace('?', p).split(';'):\n", 'red'),
+    ('c12-first-placeholder-only', 'C12', BUILD, "lookup_p.replace('?', p)", "lookup_p.replace('?', p, 1)", 'red'),
     # ---- C12: harmless
     ('c12-harmless-comment', 'C12', P8, "        # (Only assert filename if there's an #include.)\n", "        # only assert filename if there is an include\n", 'green'),
     ('c12-harmless-message', 'C12', BUILD, "'require() filename cannot contain \"./\" or \"../\" or start '",
@@ -88,6 +92,14 @@ CATALOGUE = [
     ('c20-tab-ignored-for-png', 'C20', P8, "                for line in lines_for_tab(inc_code, inc_tab):",
      "                for line in lines_for_tab(inc_code, inc_tab if inc_extension == '.p8' else None):", 'red'),
     ('c20-selector-base-8', 'C20', P8, "            inc_tab = int(inc_tab_str[1:])", "            inc_tab = int(inc_tab_str[1:], 8)", 'red'),
+    ('c20-included-lines-stripped', 'C20', P8,
+     "                for line in fh:\n                    yield line if line.endswith(b'\\n') else line + b'\\n'\n",
+     "                for line in fh:\n                    yield line.strip() + b'\\n'\n", 'red'),
+    ('c20-included-blank-lines-skipped', 'C20', P8,
+     "                for line in fh:\n                    yield line if",
+     "                for line in fh:\n                    if not line.strip():\n                        continue\n                    yield line if", 'red'),
+    ('c20-directive-case-insensitive', 'C20', P8, r"(\.p8\.png|\.p8|\.lua)(\:\d+)?')", r"(\.p8\.png|\.p8|\.lua)(\:\d+)?', re.I)", 'red'),
+    ('c20-exact-tab-line', 'C20', P8, "        if TAB_LINE_RE.match(line):", "        if line.rstrip(b'\\n') == b'-->8':", 'red'),
     # ---- C20: harmless
     ('c20-harmless-rename-both', 'C20', P8, "inc_code", "inc_text", 'red'),      # pinned shape: documented no-failing-input-found
     ('c20-harmless-docstring', 'C20', P8, '    """Processes #include lines.', '    """Processes the #include lines.', 'green'),
